@@ -58,7 +58,7 @@ def build_harness(profiles: Sequence[str]) -> None:
     with Lock("cargo.lock"):
         shutil.copyfile(os.path.join(REPO, "Cargo.lock"), os.path.join(hd, "Cargo.lock"))
         for p in profiles:
-            args = ["cargo", "build", "--offline", "-q"]
+            args = ["cargo", "build", "--offline", "-q", "--bin", "impl_driver", "--bin", "zoracle"]
             if p == "release":
                 args.append("--release")
             elif p != "dev":
@@ -73,6 +73,15 @@ def build_harness(profiles: Sequence[str]) -> None:
 
 class BuildError(Exception):
     pass
+
+
+def build_sendsync() -> Tuple[bool, str]:
+    """compile-time assertion AsepriteFile: Send + Sync (a two-line binary of its own)"""
+    hd = os.path.join(VERIF, "harness")
+    with Lock("cargo.lock"):
+        r = subprocess.run(["cargo", "build", "--offline", "-q", "--bin", "sendsync"], cwd=hd, env=ENV, stdout=subprocess.PIPE,
+                           stderr=subprocess.PIPE, text=True, timeout=1800)
+    return r.returncode == 0, r.stderr[-3000:]
 
 
 def impl_driver(profile: str) -> str:
